@@ -32,12 +32,16 @@ class SaveLoad(Suite):
     def cases(self, rng, tier, widen):
         out = []
         big = tier == "thorough" or widen
-        for _ in range(40 if big else 14):
+        # every (source kind, stored dtype, read dtype) combination of the tiff path, plus nrrd / npy
+        combos = [("tif", k, sd, rd) for k in ["uint8", "uint16", "float32"] for sd in [None, "uint8", "float32"] for rd in ["float32", "uint8", "uint16", "same"]]
+        combos += [(f, k, None, rd) for f in ["nrrd", "npy"] for k in ["uint8", "float32"] for rd in ["float32", "same", "uint8"]]
+        if not big:
+            rng.shuffle(combos)
+            combos = sorted(combos[:30], key=str) + [("tif", "float32", "uint8", "float32"), ("tif", "float32", "uint8", "same"), ("tif", "uint8", "float32", "uint8")]
+        else:
+            combos = combos * 2
+        for fmt, kind, save_dtype, read_dtype in combos:
             shape = [rng.choice([1, 2, 3, 4, 5, 7]) for _ in range(3)] + [rng.choice([1, 1, 3])]
-            kind = rng.choice(["uint8", "uint16", "float32"])
-            fmt = rng.choice(["tif", "tif", "tif", "nrrd", "npy"])
-            save_dtype = rng.choice([None, None, "uint8", "float32"]) if fmt == "tif" else None
-            read_dtype = rng.choice(["float32", "uint8", "uint16", "same"])
             out.append({"class": f"{fmt}/{kind}->{save_dtype}->{read_dtype}", "shape": shape, "kind": kind, "fmt": fmt, "save_dtype": save_dtype,
                         "read_dtype": read_dtype, "seed": rng.randrange(10**6), "drop_c": shape[3] == 1 and rng.random() < 0.4})
         return out
@@ -147,7 +151,12 @@ class Raster(Suite):
                 t = gen.tree_case(rng, n, gen.pick_shape(rng, k), numbering="sorted", coords="lattice"); k += 1
                 t["xyz"] = [[c / 6.0 for c in p] for p in t["xyz"]]
                 t["r"] = [rng.choice([0.5, 1.0, 1.5]) for _ in t["r"]]
-                out.append({"class": f"n{t['n']}", "tree": t, "res": rng.choice([1.0, 0.5, 2.0, [1.0, 0.5, 2.0]])})
+                out.append({"class": f"n{t['n']}", "tree": t, "res": rng.choice([1.0, 0.5, 2.0, 3.0, 0.75, [1.0, 0.5, 2.0], [1.0, 1.0, 3.0]])})
+        # resolutions that do not divide the height of the bounding box: the last, partially filled slice must be there
+        t = gen.tree_case(rng, 2, "chain", numbering="sorted", coords="lattice")
+        t["xyz"] = [[0.0, 0.0, 0.0], [0.5, 0.0, 3.0]]; t["r"] = [1.0, 1.0]      # z-extent of the box: 5
+        for res in ([1.0, 1.0, 3.0], 0.75):
+            out.append({"class": "n2/indivisible", "tree": t, "res": res})
         return out
 
     def run(self, case):
